@@ -45,11 +45,11 @@ class Rec:
 
 
 class Harness:
-    def __init__(self, spec, scn, modes=None, tag=None):
+    def __init__(self, spec, scn, modes=None, tag=None, env=None):
         self.spec = spec
         self.scn = scn
         self.modes = dict(modes or {})
-        self.env = sources.make_env(scn, **self.modes)
+        self.env = env if env is not None else sources.make_env(scn, **self.modes)
         self.tag = tag
         self.layout = Layout(spec)
         t0 = self.env.current_state.tensor
